@@ -45,6 +45,13 @@ def main(tier='quick', seed=0):
     t0 = time.time()
     records = frame.frame_obligations(PROP)
     errors = []
+    # the helpers the encoders call (depccg/types.py: Token / ScoredTree, depccg/tree.py, depccg/utils.py) and the encoder modules themselves keep no state
+    # between calls: no store to module-level names, no mutation of an object obtained from a memoised function or a module-level table (ast frame scan)
+    import glob, os
+    from props import c14
+    from vc.sorts import REPO
+    rels = ['depccg/types.py', 'depccg/tree.py', 'depccg/utils.py'] + sorted('depccg/printer/' + os.path.basename(f) for f in glob.glob(os.path.join(REPO, 'depccg/printer/*.py')))
+    records.extend(c14.purity_scan(PROP, rels=tuple(r for r in rels if os.path.exists(os.path.join(REPO, r))), imports=False, state_only=True))
     rep = None
     for r in records:
         if r['verdict'] == 'failed':
@@ -57,5 +64,7 @@ def main(tier='quick', seed=0):
         'determinism: encoders read no mutable module state other than the language setting (frame: module-level tables are never stored to); together with the frame this gives "rendering again, in any order of formats, equals rendering a fresh copy"',
         'the clause itself is also run BOUNDED on the real encoders: random format sequences on shared token objects against renderings of deep copies',
     ]
+    assumptions.append('state scan of depccg/types.py, tree.py, utils.py and printer/*.py (ast): global statements, stores into module-level names, mutation of objects obtained from memoised functions '
+                       '(lru_cache / cache / cached_property) or module-level tables, flow-insensitively within one function; aliases passed through calls or attributes are not followed')
     extra = dict(functions_under_contract=[f'{rel}::{q}' for rel, names in frame.ENCODERS for q in names])
     return c12.finish_with(PROP, tier, seed, t0, records, errors, extra, assumptions, ['printers_real.py'])
